@@ -7,6 +7,8 @@ import Mdsort.Proofs.ConfRT1
 namespace Mdsort.Proofs.Conf
 open Mdsort Mdsort.Model Mdsort.Spec
 
+variable {tl : Bytes} {NoE : Nat → ParseSt → Prop}
+
 theorem treePOK_leaf (e : Expr) : treePOK (.leaf e) = leafPOK e := by simp [treePOK, nodes]
 theorem treePOK_and (l : Nat) (a b : CTree) : treePOK (.and l a b) = (treePOK a && treePOK b) := by
   simp [treePOK, nodes, List.all_append]
@@ -19,178 +21,173 @@ theorem treePOK_attachment (l : Nat) (a : CTree) : treePOK (.attachment l a) = t
 theorem treePOK_attBlock (l : Nat) (a : CTree) : treePOK (.attBlock l a) = treePOK a := by simp [treePOK, nodes]
 theorem treePOK_block (l : Nat) (a : CTree) : treePOK (.block l a) = treePOK a := by simp [treePOK, nodes]
 
-def fieldToks : DateField → List PTok
-  | .header => [] | .access => [.kw .access] | .modified => [.kw .modified] | .created => [.kw .created]
-def cmpTok : DateCmp → PTok
-  | .lt => .lt | .gt => .gt
-
-theorem parseDate_rt (cx : PCtx) (hnl : cx.nl = 0) (f : DateField) (c : DateCmp) (age : Nat) (hage : age < 2 ^ 32) :
-    RT (parseDate cx) (.leaf (.date 1 f c age)) (fieldToks f ++ [cmpTok c, .int age, .seconds]) := by
+theorem parseDate_rt (cx : PCtx) (hnl : cx.nl = countNl tl) (f : DateField) (c : DateCmp) (age : Nat) (hage : age < 2 ^ 32) :
+    RT cx tl (parseDate cx) (.leaf (.date 1 f c age)) (fieldToks f ++ [cmpTok c, .int age, .seconds]) := by
   intro s ts hs
   unfold parseDate
-  simp only [wp_bind]
+  simp only [wpl_bind]
   -- the field
-  have hfield : wp (parseDateField cx) (fun a s' => a = f ∧ Up s' (cmpTok c :: .int age :: .seconds :: ts)) NoErr True s := by
+  have hfield : wpl (parseDateField cx) (fun a s' => a = f ∧ Up cx tl s' (cmpTok c :: .int age :: .seconds :: ts)) NoE True s := by
     unfold parseDateField
-    simp only [wp_bind]
+    simp only [wpl_bind]
     cases f
     · -- header: nothing is written, the comparison is the lookahead
       simp only [fieldToks, List.nil_append, List.cons_append] at hs
-      apply wp_peek_up cx _ _ hs (by cases c <;> rfl)
+      apply wpl_peek_up cx _ _ hs (by cases c <;> rfl)
       intro s1 h1
       have hok := hs.ok _ (by simp : cmpTok c ∈ cmpTok c :: .int age :: .seconds :: ts)
-      cases c <;> simp only [cmpTok, tkOf, wp_pure] <;> exact ⟨by first | trivial | rfl, h1.up_some hok⟩
+      cases c <;> simp only [cmpTok, tkOf, wpl_pure] <;> exact ⟨by first | trivial | rfl, h1.up_some hok⟩
     all_goals
       simp only [fieldToks, List.cons_append, List.nil_append] at hs
-      apply wp_peek_up cx _ _ hs rfl
+      apply wpl_peek_up cx _ _ hs rfl
       intro s1 h1
-      simp only [tkOf, wp_bind, wp_pure]
-      exact wp_shift_up h1 (fun s2 h2 => ⟨by first | trivial | rfl, h2⟩)
-  refine wp_mono hfield ?_ (fun _ h => h)
+      simp only [tkOf, wpl_bind, wpl_pure]
+      exact wpl_shift_up h1 (fun s2 h2 => ⟨by first | trivial | rfl, h2⟩)
+  refine wpl_mono hfield ?_ (fun _ _ h => h)
   rintro _ s1 ⟨rfl, h1⟩
   -- the comparison
-  have hcmp : wp (parseDateCmp cx) (fun a s' => a = c ∧ Up s' (.int age :: .seconds :: ts)) NoErr True s1 := by
+  have hcmp : wpl (parseDateCmp cx) (fun a s' => a = c ∧ Up cx tl s' (.int age :: .seconds :: ts)) NoE True s1 := by
     unfold parseDateCmp
-    simp only [wp_bind]
-    apply wp_peek_up cx _ _ h1 (by cases c <;> rfl)
+    simp only [wpl_bind]
+    apply wpl_peek_up cx _ _ h1 (by cases c <;> rfl)
     intro s2 h2
-    cases c <;> simp only [cmpTok, tkOf, wp_bind, wp_pure] <;>
-      exact wp_shift_up h2 (fun s3 h3 => ⟨by first | trivial | rfl, h3⟩)
-  refine wp_mono hcmp ?_ (fun _ h => h)
+    cases c <;> simp only [cmpTok, tkOf, wpl_bind, wpl_pure] <;>
+      exact wpl_shift_up h2 (fun s3 h3 => ⟨by first | trivial | rfl, h3⟩)
+  refine wpl_mono hcmp ?_ (fun _ _ h => h)
   rintro _ s2 ⟨rfl, h2⟩
   -- the number
-  have hint : wp (parseInt cx) (fun a s' => a = age ∧ Up s' (.seconds :: ts)) NoErr True s2 := by
+  have hint : wpl (parseInt cx) (fun a s' => a = age ∧ Up cx tl s' (.seconds :: ts)) NoE True s2 := by
     unfold parseInt
-    simp only [wp_bind]
-    apply wp_peek_up cx _ _ h2 rfl
+    simp only [wpl_bind]
+    apply wpl_peek_up cx _ _ h2 rfl
     intro s3 h3
-    simp only [tkOf, wp_bind, wp_pure]
-    exact wp_shift_up h3 (fun s4 h4 => ⟨by first | trivial | rfl, h4⟩)
-  refine wp_mono hint ?_ (fun _ h => h)
+    simp only [tkOf, wpl_bind, wpl_pure]
+    exact wpl_shift_up h3 (fun s4 h4 => ⟨by first | trivial | rfl, h4⟩)
+  refine wpl_mono hint ?_ (fun _ _ h => h)
   rintro _ s3 ⟨rfl, h3⟩
   -- the unit
-  have hsc : wp (parseScalar cx) (fun a s' => a = 1 ∧ Up s' ts) NoErr True s3 := by
+  have hsc : wpl (parseScalar cx) (fun a s' => a = 1 ∧ Up cx tl s' ts) NoE True s3 := by
     unfold parseScalar
-    simp only [wp_bind]
-    apply wp_peek_up cx _ _ h3 rfl
+    simp only [wpl_bind]
+    apply wpl_peek_up cx _ _ h3 rfl
     intro s4 h4
-    simp only [tkOf, wp_bind, wp_pure]
-    exact wp_shift_up h4 (fun s5 h5 => ⟨by first | trivial | rfl, h5⟩)
-  refine wp_mono hsc ?_ (fun _ h => h)
+    simp only [tkOf, wpl_bind, wpl_pure]
+    exact wpl_shift_up h4 (fun s5 h5 => ⟨by first | trivial | rfl, h5⟩)
+  refine wpl_mono hsc ?_ (fun _ _ h => h)
   rintro _ s4 ⟨rfl, h4⟩
-  simp only [Nat.mul_one, wp_ite, wp_bind, wp_pure]
+  simp only [Nat.mul_one, wpl_ite, wpl_bind, wpl_pure]
   rw [if_neg (by omega)]
-  exact wp_curLine_up cx hnl h4 ⟨by first | trivial | rfl, h4⟩
+  exact wpl_curLine_up cx hnl h4 ⟨by first | trivial | rfl, h4⟩
 
 /-- A condition without sub-condition. -/
-theorem unary_leaf_rt (cx : PCtx) (hnl : cx.nl = 0) (e : Expr) (hc : isCondLeaf e = true) (hok : leafOK cx.rxOk e = true)
+theorem unary_leaf_rt (cx : PCtx) (hnl : cx.nl = countNl tl) (e : Expr) (hc : isCondLeaf e = true) (hok : leafOK cx.rxOk e = true)
     (hp : leafPOK e = true) (fuel : Nat) :
-    RT (parseUnary cx fuel) (.leaf (Expr.withLno 1 e)) (condLeafToks e) := by
+    RT cx tl (parseUnary cx fuel) (.leaf (Expr.withLno 1 e)) (condLeafToks e) := by
   cases fuel with
-  | zero => intro s ts _; simp [parseUnary, wp, outOfFuel]
+  | zero => intro s ts _; simp [parseUnary, wpl, outOfFuel]
   | succ fuel =>
     intro s ts hs
     unfold parseUnary
-    simp only [wp_bind]
+    simp only [wpl_bind]
     cases e <;> simp only [isCondLeaf, Bool.false_eq_true] at hc
     case all l =>
       simp only [condLeafToks, List.cons_append, List.nil_append] at hs
-      apply wp_peek_up cx _ _ hs rfl
+      apply wpl_peek_up cx _ _ hs rfl
       intro s1 h1
-      simp only [tkOf, parseCondKw, wp_bind]
-      apply wp_shift_up h1
+      simp only [tkOf, parseCondKw, wpl_bind]
+      apply wpl_shift_up h1
       intro s2 h2
-      simp only [leafAt, wp_bind, wp_pure]
-      exact wp_curLine_up cx hnl h2 ⟨by first | trivial | rfl, h2⟩
+      simp only [leafAt, wpl_bind, wpl_pure]
+      exact wpl_curLine_up cx hnl h2 ⟨by first | trivial | rfl, h2⟩
     case new l =>
       simp only [condLeafToks, List.cons_append, List.nil_append] at hs
-      apply wp_peek_up cx _ _ hs rfl
+      apply wpl_peek_up cx _ _ hs rfl
       intro s1 h1
-      simp only [tkOf, parseCondKw, wp_bind]
-      apply wp_shift_up h1
+      simp only [tkOf, parseCondKw, wpl_bind]
+      apply wpl_shift_up h1
       intro s2 h2
-      simp only [leafAt, wp_bind, wp_pure]
-      exact wp_curLine_up cx hnl h2 ⟨by first | trivial | rfl, h2⟩
+      simp only [leafAt, wpl_bind, wpl_pure]
+      exact wpl_curLine_up cx hnl h2 ⟨by first | trivial | rfl, h2⟩
     case old l =>
       simp only [condLeafToks, List.cons_append, List.nil_append] at hs
-      apply wp_peek_up cx _ _ hs rfl
+      apply wpl_peek_up cx _ _ hs rfl
       intro s1 h1
-      simp only [tkOf, parseCondKw, wp_bind]
-      apply wp_shift_up h1
+      simp only [tkOf, parseCondKw, wpl_bind]
+      apply wpl_shift_up h1
       intro s2 h2
-      simp only [leafAt, wp_bind, wp_pure]
-      exact wp_curLine_up cx hnl h2 ⟨by first | trivial | rfl, h2⟩
+      simp only [leafAt, wpl_bind, wpl_pure]
+      exact wpl_curLine_up cx hnl h2 ⟨by first | trivial | rfl, h2⟩
     case body l p =>
       simp only [condLeafToks, List.cons_append, List.nil_append] at hs
-      apply wp_peek_up cx _ _ hs rfl
+      apply wpl_peek_up cx _ _ hs rfl
       intro s1 h1
-      simp only [tkOf, parseCondKw, wp_bind]
-      apply wp_shift_up h1
+      simp only [tkOf, parseCondKw, wpl_bind]
+      apply wpl_shift_up h1
       intro s2 h2
-      refine wp_of_rt (parsePattern_rt cx p) h2 ?_
+      refine wpl_of_rt (parsePattern_rt cx p) h2 ?_
       intro s3 h3
-      apply wp_curLine_up cx hnl h3
+      apply wpl_curLine_up cx hnl h3
       have hrx : cx.rxOk p = true := by simpa [leafOK] using hok
-      simp only [checkPattern, hrx, if_true, wp_bind, wp_pure]
+      simp only [checkPattern, hrx, if_true, wpl_bind, wpl_pure]
       exact ⟨by first | trivial | rfl, h3⟩
     case header l ns p =>
       simp only [condLeafToks, List.cons_append, List.nil_append, List.append_assoc] at hs
-      apply wp_peek_up cx _ _ hs rfl
+      apply wpl_peek_up cx _ _ hs rfl
       intro s1 h1
-      simp only [tkOf, parseCondKw, wp_bind]
-      apply wp_shift_up h1
+      simp only [tkOf, parseCondKw, wpl_bind]
+      apply wpl_shift_up h1
       intro s2 h2
-      refine wp_of_rt (parseStrings_rt cx ns fuel) h2 ?_
+      refine wpl_of_rt (parseStrings_rt cx ns fuel) h2 ?_
       intro s3 h3
-      refine wp_of_rt (parsePattern_rt cx p) h3 ?_
+      refine wpl_of_rt (parsePattern_rt cx p) h3 ?_
       intro s4 h4
-      apply wp_curLine_up cx hnl h4
+      apply wpl_curLine_up cx hnl h4
       have hrx : cx.rxOk p = true := by simpa [leafOK] using hok
-      simp only [checkPattern, hrx, if_true, wp_bind, wp_pure]
+      simp only [checkPattern, hrx, if_true, wpl_bind, wpl_pure]
       have hns : ∀ b ∈ ns, strOK b = true := by
         simp only [leafPOK, Bool.and_eq_true, List.all_eq_true] at hp; exact hp.1
-      apply wp_expandAll_up cx false ns hns h4
+      apply wpl_expandAll_up cx false ns hns h4
       exact ⟨by first | trivial | rfl, h4⟩
     case date l f c age =>
       have hage : age < 2 ^ 32 := by simpa [leafOK] using hok
-      have hs' : Up s (.kw .date :: ((fieldToks f ++ [cmpTok c, .int age, .seconds]) ++ ts)) := by
+      have hs' : Up cx tl s (.kw .date :: ((fieldToks f ++ [cmpTok c, .int age, .seconds]) ++ ts)) := by
         have : condLeafToks (.date l f c age) = .kw .date :: (fieldToks f ++ [cmpTok c, .int age, .seconds]) := by
           cases f <;> cases c <;> rfl
         rw [this] at hs; simpa using hs
-      apply wp_peek_up cx _ _ hs' rfl
+      apply wpl_peek_up cx _ _ hs' rfl
       intro s1 h1
-      simp only [tkOf, parseCondKw, wp_bind]
-      apply wp_shift_up h1
+      simp only [tkOf, parseCondKw, wpl_bind]
+      apply wpl_shift_up h1
       intro s2 h2
-      exact wp_of_rt (parseDate_rt cx hnl f c age hage) h2 (fun s3 h3 => ⟨by first | trivial | rfl, h3⟩)
+      exact wpl_of_rt (parseDate_rt cx hnl f c age hage) h2 (fun s3 h3 => ⟨by first | trivial | rfl, h3⟩)
     case stat l p =>
       simp only [condLeafToks, List.cons_append, List.nil_append] at hs
-      apply wp_peek_up cx _ _ hs rfl
+      apply wpl_peek_up cx _ _ hs rfl
       intro s1 h1
-      simp only [tkOf, parseCondKw, wp_bind]
-      apply wp_shift_up h1
+      simp only [tkOf, parseCondKw, wpl_bind]
+      apply wpl_shift_up h1
       intro s2 h2
-      refine wp_of_rt (parseStr_rt cx p) h2 ?_
+      refine wpl_of_rt (parseStr_rt cx p) h2 ?_
       intro s3 h3
-      apply wp_curLine_up cx hnl h3
+      apply wpl_curLine_up cx hnl h3
       have hps : strOK p = true := by simpa [leafPOK] using hp
-      apply wp_expandOne_up cx false p hps h3
-      simp only [wp_pure]
+      apply wpl_expandOne_up cx false p hps h3
+      simp only [wpl_pure]
       exact ⟨by first | trivial | rfl, h3⟩
     case command l a =>
       simp only [condLeafToks, List.cons_append, List.nil_append] at hs
-      apply wp_peek_up cx _ _ hs rfl
+      apply wpl_peek_up cx _ _ hs rfl
       intro s1 h1
-      simp only [tkOf, parseCondKw, wp_bind]
-      apply wp_shift_up h1
+      simp only [tkOf, parseCondKw, wpl_bind]
+      apply wpl_shift_up h1
       intro s2 h2
-      refine wp_of_rt (parseStrings_rt cx a fuel) h2 ?_
+      refine wpl_of_rt (parseStrings_rt cx a fuel) h2 ?_
       intro s3 h3
-      apply wp_curLine_up cx hnl h3
+      apply wpl_curLine_up cx hnl h3
       have ha : ∀ b ∈ a, strOK b = true := by
         simp only [leafPOK, List.all_eq_true] at hp; exact hp
-      apply wp_expandAll_up cx false a ha h3
-      simp only [wp_pure]
+      apply wpl_expandAll_up cx false a ha h3
+      simp only [wpl_pure]
       exact ⟨by first | trivial | rfl, h3⟩
 
 /-- Tokens that end a chain of `and` / `or`. -/
@@ -202,25 +199,25 @@ theorem stopBin_mode (t : PTok) (h : stopBin t = true) : modeOK false false t = 
   cases t <;> simp_all [stopBin, modeOK]
 
 theorem binTail_stop (cx : PCtx) (fuel : Nat) (lhs : CTree) (s : ParseSt) (t : PTok) (ts : List PTok)
-    (hs : Up s (t :: ts)) (ht : stopBin t = true) :
-    wp (parseBinTail cx fuel lhs) (fun a s' => a = lhs ∧ Up s' (t :: ts)) NoErr True s := by
+    (hs : Up cx tl s (t :: ts)) (ht : stopBin t = true) :
+    wpl (parseBinTail cx fuel lhs) (fun a s' => a = lhs ∧ Up cx tl s' (t :: ts)) NoErr True s := by
   cases fuel with
-  | zero => simp [parseBinTail, wp, outOfFuel]
+  | zero => simp [parseBinTail, wpl, outOfFuel]
   | succ fuel =>
     unfold parseBinTail
-    simp only [wp_bind]
-    apply wp_peek_up cx _ _ hs (stopBin_mode t ht)
+    simp only [wpl_bind]
+    apply wpl_peek_up cx _ _ hs (stopBin_mode t ht)
     intro s1 h1
     have hok := hs.ok t (by simp)
-    cases t <;> simp only [stopBin, Bool.false_eq_true] at ht <;> simp only [tkOf, wp_pure] <;>
+    cases t <;> simp only [stopBin, Bool.false_eq_true] at ht <;> simp only [tkOf, wpl_pure] <;>
       first
       | exact ⟨by first | trivial | rfl, h1.up_some hok⟩
-      | (rename_i k; cases k <;> simp only [stopBin, Bool.false_eq_true] at ht <;> simp only [wp_pure] <;>
+      | (rename_i k; cases k <;> simp only [stopBin, Bool.false_eq_true] at ht <;> simp only [wpl_pure] <;>
           exact ⟨by first | trivial | rfl, h1.up_some hok⟩)
 
 /-- Every well-formed, writable condition is read back by `parseUnary` as one operand. -/
-theorem cond_rt (cx : PCtx) (hnl : cx.nl = 0) : ∀ (t : CTree), wfK cx.rxOk .cond t = true → treePOK t = true →
-    ∀ fuel, RT (parseUnary cx fuel) (relabel t) (toks .cond t) := by
+theorem cond_rt (cx : PCtx) (hnl : cx.nl = countNl tl) : ∀ (t : CTree), wfK cx.rxOk .cond t = true → treePOK t = true →
+    ∀ fuel, RT cx tl (parseUnary cx fuel) (relabel t) (toks .cond t) := by
   intro t
   induction t with
   | leaf e =>
@@ -233,119 +230,119 @@ theorem cond_rt (cx : PCtx) (hnl : cx.nl = 0) : ∀ (t : CTree), wfK cx.rxOk .co
     simp only [wfK] at hw
     rw [treePOK_neg] at hp
     cases fuel with
-    | zero => intro s ts _; simp [parseUnary, wp, outOfFuel]
+    | zero => intro s ts _; simp [parseUnary, wpl, outOfFuel]
     | succ fuel =>
       intro s ts hs
       unfold parseUnary
-      simp only [wp_bind]
+      simp only [wpl_bind]
       simp only [toks, List.cons_append] at hs
-      apply wp_peek_up cx _ _ hs rfl
+      apply wpl_peek_up cx _ _ hs rfl
       intro s1 h1
-      simp only [tkOf, wp_bind]
-      apply wp_shift_up h1
+      simp only [tkOf, wpl_bind]
+      apply wpl_shift_up h1
       intro s2 h2
-      refine wp_of_rt (ih hw hp fuel) h2 ?_
+      refine wpl_of_rt (ih hw hp fuel) h2 ?_
       intro s3 h3
-      apply wp_curLine_up cx hnl h3
-      simp only [wp_pure]
+      apply wpl_curLine_up cx hnl h3
+      simp only [wpl_pure]
       exact ⟨by first | trivial | rfl, h3⟩
   | attachment l e ih =>
     intro hw hp fuel
     simp only [wfK] at hw
     rw [treePOK_attachment] at hp
     cases fuel with
-    | zero => intro s ts _; simp [parseUnary, wp, outOfFuel]
+    | zero => intro s ts _; simp [parseUnary, wpl, outOfFuel]
     | succ fuel =>
       intro s ts hs
       unfold parseUnary
-      simp only [wp_bind]
+      simp only [wpl_bind]
       simp only [toks, List.cons_append] at hs
-      apply wp_peek_up cx _ _ hs rfl
+      apply wpl_peek_up cx _ _ hs rfl
       intro s1 h1
-      simp only [tkOf, parseCondKw, wp_bind]
-      apply wp_shift_up h1
+      simp only [tkOf, parseCondKw, wpl_bind]
+      apply wpl_shift_up h1
       intro s2 h2
-      refine wp_of_rt (ih hw hp fuel) h2 ?_
+      refine wpl_of_rt (ih hw hp fuel) h2 ?_
       intro s3 h3
-      apply wp_curLine_up cx hnl h3
-      simp only [wp_pure]
+      apply wpl_curLine_up cx hnl h3
+      simp only [wpl_pure]
       exact ⟨by first | trivial | rfl, h3⟩
   | and l a b iha ihb =>
     intro hw hp fuel
     simp only [wfK, Bool.and_eq_true] at hw
     rw [treePOK_and, Bool.and_eq_true] at hp
     cases fuel with
-    | zero => intro s ts _; simp [parseUnary, wp, outOfFuel]
+    | zero => intro s ts _; simp [parseUnary, wpl, outOfFuel]
     | succ fuel =>
       intro s ts hs
       unfold parseUnary
-      simp only [wp_bind]
+      simp only [wpl_bind]
       simp only [toks, List.cons_append, List.nil_append, List.append_assoc] at hs
-      apply wp_peek_up cx _ _ hs rfl
+      apply wpl_peek_up cx _ _ hs rfl
       intro s1 h1
-      simp only [tkOf, wp_bind]
-      apply wp_shift_up h1
+      simp only [tkOf, wpl_bind]
+      apply wpl_shift_up h1
       intro s2 h2
-      refine wp_of_rt (iha hw.1 hp.1 fuel) h2 ?_
+      refine wpl_of_rt (iha hw.1 hp.1 fuel) h2 ?_
       intro s3 h3
       -- the tail: `and b )`
       cases fuel with
-      | zero => simp [parseBinTail, wp, outOfFuel]
+      | zero => simp [parseBinTail, wpl, outOfFuel]
       | succ fuel =>
         unfold parseBinTail
-        simp only [wp_bind]
-        apply wp_peek_up cx _ _ h3 rfl
+        simp only [wpl_bind]
+        apply wpl_peek_up cx _ _ h3 rfl
         intro s4 h4
-        simp only [tkOf, wp_bind]
-        apply wp_shift_up h4
+        simp only [tkOf, wpl_bind]
+        apply wpl_shift_up h4
         intro s5 h5
-        refine wp_of_rt (ihb hw.2 hp.2 fuel) h5 ?_
+        refine wpl_of_rt (ihb hw.2 hp.2 fuel) h5 ?_
         intro s6 h6
-        apply wp_curLine_up cx hnl h6
-        have hstop := binTail_stop cx fuel (.and 1 (relabel a) (relabel b)) s6 .rparen ts h6 rfl
-        refine wp_mono hstop ?_ (fun _ h => h)
+        apply wpl_curLine_up cx hnl h6
+        have hstop := binTail_stop (NoErr := NoE) cx fuel (.and 1 (relabel a) (relabel b)) s6 .rparen ts h6 rfl
+        refine wpl_mono hstop ?_ (fun _ _ h => h)
         rintro _ s7 ⟨rfl, h7⟩
-        refine wp_of_rt (expectTk_rt cx .rparen rfl) h7 ?_
+        refine wpl_of_rt (expectTk_rt cx .rparen rfl) h7 ?_
         intro s8 h8
-        simp only [wp_pure]
+        simp only [wpl_pure]
         exact ⟨by first | trivial | rfl, h8⟩
   | or l a b iha ihb =>
     intro hw hp fuel
     simp only [wfK, Bool.and_eq_true] at hw
     rw [treePOK_or, Bool.and_eq_true] at hp
     cases fuel with
-    | zero => intro s ts _; simp [parseUnary, wp, outOfFuel]
+    | zero => intro s ts _; simp [parseUnary, wpl, outOfFuel]
     | succ fuel =>
       intro s ts hs
       unfold parseUnary
-      simp only [wp_bind]
+      simp only [wpl_bind]
       simp only [toks, List.cons_append, List.nil_append, List.append_assoc] at hs
-      apply wp_peek_up cx _ _ hs rfl
+      apply wpl_peek_up cx _ _ hs rfl
       intro s1 h1
-      simp only [tkOf, wp_bind]
-      apply wp_shift_up h1
+      simp only [tkOf, wpl_bind]
+      apply wpl_shift_up h1
       intro s2 h2
-      refine wp_of_rt (iha hw.1 hp.1 fuel) h2 ?_
+      refine wpl_of_rt (iha hw.1 hp.1 fuel) h2 ?_
       intro s3 h3
       cases fuel with
-      | zero => simp [parseBinTail, wp, outOfFuel]
+      | zero => simp [parseBinTail, wpl, outOfFuel]
       | succ fuel =>
         unfold parseBinTail
-        simp only [wp_bind]
-        apply wp_peek_up cx _ _ h3 rfl
+        simp only [wpl_bind]
+        apply wpl_peek_up cx _ _ h3 rfl
         intro s4 h4
-        simp only [tkOf, wp_bind]
-        apply wp_shift_up h4
+        simp only [tkOf, wpl_bind]
+        apply wpl_shift_up h4
         intro s5 h5
-        refine wp_of_rt (ihb hw.2 hp.2 fuel) h5 ?_
+        refine wpl_of_rt (ihb hw.2 hp.2 fuel) h5 ?_
         intro s6 h6
-        apply wp_curLine_up cx hnl h6
-        have hstop := binTail_stop cx fuel (.or 1 (relabel a) (relabel b)) s6 .rparen ts h6 rfl
-        refine wp_mono hstop ?_ (fun _ h => h)
+        apply wpl_curLine_up cx hnl h6
+        have hstop := binTail_stop (NoErr := NoE) cx fuel (.or 1 (relabel a) (relabel b)) s6 .rparen ts h6 rfl
+        refine wpl_mono hstop ?_ (fun _ _ h => h)
         rintro _ s7 ⟨rfl, h7⟩
-        refine wp_of_rt (expectTk_rt cx .rparen rfl) h7 ?_
+        refine wpl_of_rt (expectTk_rt cx .rparen rfl) h7 ?_
         intro s8 h8
-        simp only [wp_pure]
+        simp only [wpl_pure]
         exact ⟨by first | trivial | rfl, h8⟩
   | _ => intro hw; simp [wfK] at hw
 
